@@ -22,7 +22,11 @@ VERIF = os.path.dirname(os.path.dirname(os.path.abspath(__file__)))
 if VERIF not in sys.path:
     sys.path.insert(0, VERIF)
 PY = sys.executable
-REPO = '/repo'
+# The tree under analysis: /repo (editable install) unless SYMX_PEXPECT_ROOT names a scratch
+# copy containing a pexpect/ package (used only by the self-test on mutated copies).
+REPO = os.environ.get('SYMX_PEXPECT_ROOT') or '/repo'
+if REPO != '/repo':
+    sys.path.insert(0, REPO)
 
 
 def log(*a):
@@ -33,6 +37,8 @@ def log(*a):
 def _run_json(argv, timeout):
     env = dict(os.environ)
     env['PYTHONPATH'] = VERIF + (os.pathsep + env['PYTHONPATH'] if env.get('PYTHONPATH') else '')
+    if REPO != '/repo':
+        env['PYTHONPATH'] = REPO + os.pathsep + env['PYTHONPATH']
     env.setdefault('PYTHONHASHSEED', '0')
     env['PYTHONDONTWRITEBYTECODE'] = '1'
     t0 = time.time()
@@ -156,7 +162,7 @@ def check(pid, tier, only=None, jobs=None, seed=0, quiet=False):
         # inside one job list (the runner stops asking once every tag has a witness).
         joblist.append(('twins', ob, {'module': modname, 'obligation': ob.name, 'tier': tier, 'partition': None,
                                       'workdir': workdir, 'plabels': plabels, 'tw_t': tw_t,
-                                      'tags': sorted(ob.tags), 'codes': sorted(codes)}))
+                                      'tags': sorted(ob.tags_for(tier)), 'codes': sorted(codes)}))
 
     def do(item):
         kind, ob, job = item
